@@ -651,6 +651,23 @@ def with_variants(rng, case, p_flags=0.3, p_form=0.5):
         case = dict(case, desc=d)
     if rng.random() < p_form:
         case = dict(case, samples_form=rng.choice(SAMPLE_FORMS))
+    return with_node_perm(rng, case)
+
+
+def with_node_perm(rng, case, p=0.5, keys=("samples",)):
+    """Node ids independent of time order (tskit only orders parents and children by TIME):
+    ancestors-first or random numbering, samples not first, roots in mixed id order.  The
+    sample lists are mapped through the permutation; everything else in a case is either
+    inside desc (remapped by gen_ts.permute_node_ids) or not node-indexed."""
+    if case.get("node_perm") is not None:
+        return case
+    d2, pi = gen_ts.permute_node_ids(rng, case["desc"], p)
+    if pi is None:
+        return case
+    n = len(pi)
+    case = dict(case, desc=d2, node_perm=pi)
+    for k in keys:
+        case[k] = [pi[u] if 0 <= u < n else u for u in case[k]]
     return case
 
 
@@ -839,6 +856,7 @@ class Simplify(Family):
 
     def describe(self, case, obs):
         return {"stream": case.get("stream", "main"), "individual_rows_shuffled": bool(case.get("ind_perm")),
+                "node_ids_permuted": case.get("node_perm") is not None,
                 "samples_form": case.get("samples_form", "i32"),
                 "extra_flag_bits": any(nd[0] > 1 for nd in case["desc"]["nodes"]), "num_nodes_bucket": min(len(case["desc"]["nodes"]) // 5, 6),
                 "num_samples": len(case["samples"]),
@@ -960,8 +978,9 @@ class Refusal(Family):
                 bad_S = S + [rng.choice([-1, n, n + 3, 2 ** 31 - 1, -2 ** 31])]
             else:
                 bad_o["keep_unary"] = bad_o["keep_unary_in_individuals"] = True
-            yield {"desc": d2, "samples": bad_S, "opts": bad_o, "kind": kind, "good_samples": S, "good_opts": o,
-                   "samples_form": rng.choice(SAMPLE_FORMS)}
+            yield with_node_perm(rng, {"desc": d2, "samples": bad_S, "opts": bad_o, "kind": kind, "good_samples": S,
+                                       "good_opts": o, "samples_form": rng.choice(SAMPLE_FORMS)},
+                                 keys=("samples", "good_samples"))
 
     def observe(self, case):
         import numpy as np
